@@ -63,10 +63,13 @@ def classify(exc, readonly):
 
 
 class Runner(object):
-    def __init__(self, path, with_times=False):
+    def __init__(self, path, with_times=False, compression=None):
         self.path = path
         self.with_times = with_times
-        self.f = nixio.File.open(path, nixio.FileMode.Overwrite)
+        if compression is None:
+            self.f = nixio.File.open(path, nixio.FileMode.Overwrite)
+        else:
+            self.f = nixio.File.open(path, nixio.FileMode.Overwrite, compression=compression)
         self.readonly = False
         self.handles = [("File", self.f, None)]     # (kind, object, cached id)
         self.digest = nixwalk.Digest()
